@@ -35,7 +35,7 @@ def explore(chk):
         caps = []
         t = 1000000
         for _ in range(rng.randint(1, 4)):
-            nodes, lines = textgen.adv_nodes(rng, forbid=forbid)
+            nodes, lines = textgen.adv_nodes(rng, forbid=forbid, styles=wname in ("dfxp", "single", "legacy", "sami", "webvtt"))
             caps.append((t, t + 1500000, nodes, lines))
             t += 2000000
         abstract = {"en-US": [(a, b_, n) for (a, b_, n, l) in caps]}
@@ -122,6 +122,8 @@ def explore(chk):
         else:
             for k, (cap_abs, o) in enumerate(zip(caps, ops["text"])):
                 capobj = cs.get_captions("en-US")[k]
+                if wname == "single" and any(n[0] == "S" for n in cap_abs[2]):
+                    continue      # this writer gives every node a layout: a style node always opens a span there (modelled in C09/C11)
                 try:
                     if wname in ("dfxp", "single"):
                         w2 = pycaption.DFXPWriter(); soup = BeautifulSoup("<tt><head><styling/></head></tt>", "lxml-xml")
